@@ -201,6 +201,12 @@ pub fn cases(tier: Tier, seed: u64) -> Vec<Case> {
         }
     }
     for (name, input, block) in blocks.iter() {
+        for loops in 1..=3usize {
+            out.push(update_case(name, input.clone(), block.clone(), loops, Acc::Add, Opt::SGD, 0));
+        }
+    }
+    out.push(update_case("dense5-dense4-dense3-mixed-bias", Shape::Single(3), vec![L::Dense(5, Linear, true), L::Dense(4, Linear, false), L::Dense(3, Linear, true)], 2, Acc::Mean, Opt::SGD, if full { 2 } else { 1 }));
+    for (name, input, block) in blocks.iter() {
         for (acc, opt, batch, epochs) in [(Acc::Mean, Opt::SGD, 1, 1), (Acc::Mean, Opt::Adam, 2, 2), (Acc::Add, Opt::SGDM, 2, 1)] {
             let kernels = block.iter().any(|l| matches!(l, L::Conv(..) | L::Deconv(..)));
             if !full && (kernels && opt == Opt::Adam) {
